@@ -184,3 +184,71 @@ def _origins(b, l, projs, depth, seen):
 def origin_calls(b, operand):
     """origins() restricted to whole call results; anything else is 'other'"""
     return set(o if not isinstance(o, tuple) and o != 'other' else 'other' for o in origins(b, operand))
+
+
+def origin_vals(b, operand, extra=()):
+    """Like origins(), but returns the def-use values (mir.V) at the leaves, so that two places that
+    receive the same computed value through different joins / aggregates compare equal. `extra` is a
+    projection to apply to the operand first; {'downcast': '*'} matches whichever variant was built."""
+    from mir import V, proj_str
+    if operand.get('k') not in ('copy', 'move'):
+        return {b.val(operand)} if not extra else set()
+    out = set()
+    seen = set()
+
+    def strip(v):
+        return V(v.kind, v.key, [p for p in v.projs if p not in ('ref', 'deref')])
+
+    def go(l, projs, depth):
+        key = (l, tuple(proj_str(e) if not (isinstance(e, dict) and e.get('downcast') == '*') else '*' for e in projs))
+        if key in seen or depth > 16:
+            return
+        seen.add(key)
+        ds = [d for d in b.defs.get(l, []) if d[1] == 'call' or not d[2]['lhs']['p']]
+        if not ds or (1 <= l <= b.arg_count and len(ds) == 0):
+            v = b.local_val(l)
+            for e in projs:
+                v = v.with_proj(proj_str(e))
+            out.add(strip(v))
+            return
+        for d in ds:
+            if d[1] == 'call':
+                v = V('call', d[0])
+                for e in projs:
+                    v = v.with_proj(proj_str(e))
+                out.add(strip(v))
+                continue
+            rv = d[2]['rv']
+            if rv['k'] in ('use', 'cast') and rv['op'].get('k') in ('copy', 'move'):
+                pl = rv['op']['place']
+                go(pl['l'], [e for e in pl['p'] if e != 'deref'] + projs, depth + 1)
+            elif rv['k'] == 'ref':
+                pl = rv['place']
+                go(pl['l'], [e for e in pl['p'] if e != 'deref'] + projs, depth + 1)
+            elif rv['k'] == 'agg' and projs and isinstance(projs[0], dict) and 'downcast' in projs[0]:
+                if rv.get('agg') != 'adt' or (projs[0]['downcast'] != '*' and projs[0]['downcast'] != rv.get('variant')):
+                    continue
+                if len(projs) >= 2 and isinstance(projs[1], dict) and 'f' in projs[1] and projs[1]['f'] < len(rv['ops']):
+                    o = rv['ops'][projs[1]['f']]
+                    if o.get('k') in ('copy', 'move'):
+                        go(o['place']['l'], [e for e in o['place']['p'] if e != 'deref'] + projs[2:], depth + 1)
+                    else:
+                        out.add(b.val(o))
+            elif rv['k'] == 'agg' and projs and isinstance(projs[0], dict) and 'f' in projs[0] and \
+                    projs[0]['f'] < len(rv['ops']):
+                o = rv['ops'][projs[0]['f']]
+                if o.get('k') in ('copy', 'move'):
+                    go(o['place']['l'], [e for e in o['place']['p'] if e != 'deref'] + projs[1:], depth + 1)
+                else:
+                    out.add(b.val(o))
+            else:
+                if len(ds) == 1:
+                    v = b.local_val(l)
+                else:
+                    v = V('local', l)
+                for e in projs:
+                    v = v.with_proj(proj_str(e))
+                out.add(strip(v))
+    pl = operand['place']
+    go(pl['l'], [e for e in pl['p'] if e != 'deref'] + list(extra), 0)
+    return out
